@@ -222,4 +222,13 @@ func OrderedDaemon.GetRunningBackgroundWorkers
   loop 2 invariant rheld(d.lock) && fresh(result) && 0 <= i && j < len(result) && i + j == len(result) - 1 && d.shutdownOrderWorker == old(d.shutdownOrderWorker) && (forall k Int :: 0 <= k && k < len(d.shutdownOrderWorker) ==> d.shutdownOrderWorker[k] == old(d.shutdownOrderWorker[k]))
   ensures unlocked(d.lock)
   ensures len(d.shutdownOrderWorker) == old(len(d.shutdownOrderWorker)) && forall k Int :: 0 <= k && k < len(d.shutdownOrderWorker) ==> d.shutdownOrderWorker[k] == old(d.shutdownOrderWorker[k])
+-- the package-level wrappers act on the default daemon and hand their arguments on unchanged (the shutdown order included)
+func BackgroundWorker
+  opt only-ghost-asserts
+  modifies everything
+  ghost local through Bool
+  ghost at entry: through = false
+  ghost before call OrderedDaemon.BackgroundWorker: assert arg0 == defaultDaemon && arg1 == name && arg2 == handler && arg3 == priority
+  ghost after call OrderedDaemon.BackgroundWorker: through = true
+  ghost at return: assert through
 @*/
